@@ -543,6 +543,7 @@ fn emit(st: &RefCell<St>, kind: u8, describe: bool, form: usize) {
 
 pub fn run(a: &Args) -> Option<Report> {
     match a.leg.as_str() {
+        "late-global" => return Some(run_late_global(a)),
         "native" | "native-global" | "asan" | "miri" => {}
         _ => return None,
     }
@@ -657,4 +658,94 @@ pub fn run(a: &Args) -> Option<Report> {
     rep.count("distinct_macro_forms_exercised", form_cov.len() as u64);
     let _ = fnv;
     Some(rep)
+}
+
+/// One process = one trial: threads emit before any global recorder exists (no-op), a global recorder is then
+/// installed, and the same threads (as well as fresh ones) emit again: every emission outside a local scope made after
+/// the installation returned must reach the global recorder, local scopes still win, and earlier ones reach nothing.
+fn run_late_global(a: &Args) -> Report {
+    let mut rep = Report::new("C01", &a.leg, a.seed);
+    let mut r = Rng::new(a.shard_seed());
+    let global_log = doubles::new_log();
+    let nthreads = 1 + r.usize(4);
+    let before = 1 + r.usize(5);
+    let after = 1 + r.usize(5);
+    let phase = std::sync::Arc::new(std::sync::Barrier::new(nthreads + 1));
+    let mut hs = Vec::new();
+    for t in 0..nthreads {
+        let phase = phase.clone();
+        let uses_local_first = r.chance(1, 2);
+        hs.push(std::thread::spawn(move || {
+            doubles::set_thread_tag(100 + t as u64);
+            let local_log = doubles::new_log();
+            let local = LogRecorder::new(50 + t as u32, &local_log);
+            // phase 1: no global recorder yet
+            for i in 0..before {
+                if uses_local_first && i == 0 {
+                    metrics::with_local_recorder(&local, || {
+                        let _ = metrics::counter!("early_local");
+                    });
+                } else {
+                    let _ = metrics::counter!("early");
+                    metrics::describe_gauge!("early_g", "d");
+                }
+            }
+            phase.wait(); // main installs the global recorder
+            phase.wait();
+            // phase 2: same thread, after the installation returned
+            for _ in 0..after {
+                let c = metrics::counter!("late_same_thread");
+                c.increment(1);
+                metrics::with_local_recorder(&local, || {
+                    let _ = metrics::gauge!("late_local");
+                });
+            }
+            doubles::take_log(&local_log).len()
+        }));
+    }
+    phase.wait();
+    let g = LogRecorder::new(0, &global_log);
+    let installed = metrics::set_global_recorder(g).is_ok();
+    phase.wait();
+    let mut local_total = 0;
+    for h in hs {
+        local_total += h.join().unwrap();
+    }
+    // a fresh thread after the install
+    std::thread::spawn(|| {
+        doubles::set_thread_tag(999);
+        let _ = metrics::histogram!("late_fresh_thread");
+    })
+    .join()
+    .unwrap();
+    let got = doubles::take_log(&global_log);
+    rep.case(mix(nthreads as u64, mix(before as u64, after as u64)), true);
+    rep.case(mix(a.shard, 7), true);
+    if !installed {
+        rep.inconclusive("global recorder already installed");
+        return rep;
+    }
+    let early: usize = got.iter().filter(|x| matches!(&x.op, Op::Register { key, .. } if key.name.starts_with("early")) || matches!(&x.op, Op::Describe { name, .. } if name.starts_with("early"))).count();
+    if early > 0 {
+        rep.violation("C01:emission-before-install-reached-global", jo! {"what" => "an emission made before any global recorder was installed was delivered to the global recorder", "count" => early});
+    }
+    for t in 0..nthreads {
+        let regs = got.iter().filter(|x| x.thread == 100 + t as u64 && matches!(&x.op, Op::Register { key, .. } if key.name == "late_same_thread")).count();
+        let incs = got.iter().filter(|x| x.thread == 100 + t as u64 && matches!(&x.op, Op::CounterInc { .. })).count();
+        if regs != after || incs != after {
+            rep.violation("C01:missing-delivery:global-installed-after-thread-first-emitted", jo! {"what" => "a thread that had emitted before the global recorder existed does not reach the global recorder afterwards (exactly once per emission)", "thread" => t, "expected" => after, "registrations_delivered" => regs, "updates_delivered" => incs, "emissions_before_install" => before});
+        }
+    }
+    if got.iter().filter(|x| matches!(&x.op, Op::Register { key, .. } if key.name == "late_fresh_thread")).count() != 1 {
+        rep.violation("C01:missing-delivery", jo! {"what" => "a fresh thread's emission after the install did not reach the global recorder exactly once"});
+    }
+    if got.iter().any(|x| matches!(&x.op, Op::Register { key, .. } if key.name.ends_with("_local"))) {
+        rep.violation("C01:wrong-recorder", jo! {"what" => "an emission inside a local scope reached the global recorder"});
+    }
+    let expected_local: usize = nthreads * after; // + the optional early_local ones
+    if local_total < expected_local {
+        rep.violation("C01:missing-delivery", jo! {"what" => "emissions inside local scopes did not reach the local recorder", "delivered" => local_total, "expected_at_least" => expected_local});
+    }
+    rep.sample(jo! {"late_global_install" => true, "threads" => nthreads, "emissions_before_install_each" => before, "after_each" => after, "delivered_to_global" => got.len()});
+    rep
 }
